@@ -254,6 +254,38 @@ def main(tier):
                                                           'tokens_this': toks[:50], 'tokens_other': ref[1][:50]}))
                     break
         stats['cross_comparisons'] = cross
+        # in-code versus serialized tables (the loader and the file format are C15's subject; here: the same rule set, the same
+        # inputs, tables loaded by yytables_fload versus tables compiled in - for rule sets with trailing context and REJECT tables)
+        sys.path.insert(0, os.path.dirname(os.path.abspath(__file__)))
+        import c15
+        scases = []
+        for i in range(8 if tier == "quick" else 60):
+            r = rng.fork("ser%d" % i)
+            prog = rulesets.gen_program(r, trailing=(i % 2 == 0), max_scs=1, csize=256)
+            extra = []
+            tbl = r.pick(TABLES)
+            if i % 3 == 0:
+                a, b = r.pick([(97, 98), (48, 97), (98, 98)])
+                prog['rules'].insert(r.below(len(prog['rules']) + 1),
+                                     {'head': ('plus', ('c', a)), 'bol': False, 'scs': None, 'trail': ('cat', ('star', ('c', b)), ('c', 120))})
+                tbl = r.pick(["-C", "-Ce", "-Cm", "-Cem", "-Ca", "-Caem"])
+            elif i % 3 == 1 and "f" not in tbl and "F" not in tbl:
+                extra = ["reject"]
+            scases.append({'id': "ser%d" % i, 'kind': 'rt', 'prog': prog, 'seed': r.s, 'flex_opts': [tbl, "-8"], 'extra_options': extra,
+                           'inputs': rulesets.gen_inputs(prog, r.fork("in"), count=3, maxlen=80), 'asan': False, 'tier': tier,
+                           'text': '', 'backend': 'nr'})
+        sresults = parallel_map(c15.worker, scases)
+        stats['serialized_vs_incode_scanners'] = len(scases)
+        for c, r in zip(scases, sresults):
+            for kind, msg in r['problems'][:1]:
+                stats.setdefault('problem_kinds', {})
+                stats['problem_kinds'][kind] = stats['problem_kinds'].get(kind, 0) + 1
+                ck.violation("serialized:%s:%s" % (kind, engine.prog_key(c)),
+                             "in-code and serialized tables differ (%s): %s" % (kind, msg[:400]),
+                             {'spec': r.get('text', ''), 'flex_opts': c['flex_opts'], 'backend': 'nr', 'detail': [list(p) for p in r['problems'][:3]],
+                              'how': "flex <opts> -o a.c a.l with %option tables-file=\"t.tables\" (scanner loads t.tables with yytables_fload) "
+                                     "versus the same rules with in-code tables; same inputs"},
+                             no_input=kind in ('harness-error',))
     ls_ok = sum(1 for r in results for l in r['lockstep'] if " OK " in l)
     ls_all = sum(len(r['lockstep']) for r in results)
     combos_seen = {}
@@ -274,6 +306,7 @@ def main(tier):
         "cross_stream_comparisons": stats.get('cross_comparisons', 0),
         "option_sets_run": stats.get('optsets', 0), "option_sets_disagreeing": stats.get('optsets_disagree', 0),
         "option_sets_compiled": stats.get('optsets_compiled', 0),
+        "serialized_vs_incode_scanners": stats.get('serialized_vs_incode_scanners', 0),
         "exhaustive_option_table": True,
         "combination_histogram_size": len(combos_seen),
         "problem_kinds": stats.get('problem_kinds', {}),
@@ -282,8 +315,8 @@ def main(tier):
                     {"option_set": "-CfF -I", "expected": "refuse"}],
     }
     return ck.finish(cov, assumptions=[
-        "the go back end emits C and is not driven separately here (see C19 / DESIGN section 4)",
-        "serialized tables are the subject of C15",
+        "serialized tables: 8 (quick) / 60 (thorough) rule sets are built with --tables-file and compared with their in-code twins here; "
+        "the file format, the loader's failure modes and all table representations are the subject of C15",
     ])
 
 
